@@ -74,4 +74,23 @@ theorem C10_source_delivers (L : Loads) (recno : Nat) (last : Option Bytes) (src
   rw [ipm_next_eq, hframe]
   simp only [hok]
 
+/-- C07 for the readers as translated, over ANY bytes: the translated `VbsReader.__next__` always RETURNS — a record,
+    end of data, or the library's error; no other exception and no divergence, whatever the file holds -/
+theorem C07_source_vbs_reader_total (recno : Nat) (last : Option Bytes) (src : Bytes) :
+    ∃ sig, Src.VbsReader_next (recno : Int) (last.getD []) src = .ok sig :=
+  ⟨_, reader_next_eq recno last src⟩
+
+/-- … and so does the translated `IpmReader.__next__`, for any message decoder that itself ends in a dictionary or the
+    library's data error (which is what C07 says of `loads`) -/
+theorem C07_source_ipm_reader_total (L : Loads) (hL : ∀ r, (∃ d, L r = .ok d) ∨ L r = .dataError)
+    (recno : Nat) (last : Option Bytes) (src : Bytes) :
+    ∃ sig, Src.IpmReader_next L (recno : Int) (last.getD []) src = .ok sig := by
+  rw [ipm_next_eq]
+  cases hn : next plainSrc Gen.maxVbsRecordLength ⟨src, recno, last⟩ with
+  | record r st =>
+    rcases hL r with ⟨d, hd⟩ | hd
+    · simp only [hd]; exact ⟨_, rfl⟩
+    · simp only [hd]; exact ⟨_, rfl⟩
+  | done e => cases e <;> exact ⟨_, rfl⟩
+
 end Cardutil.SrcTie
